@@ -115,13 +115,16 @@ type handler struct {
 	closerAt  int64
 	closedAt  int64 // when the reader saw the queue closed
 	received  []uint32
-	afterMsg  int32 // messages received after the closer ran
-	mu        sync.Mutex
-	done      chan struct{}
-	expected  []uint32 // model: ids of the messages it must receive
-	live      bool     // model
-	tracked   bool     // model: registered before shutdown
-	regDone   int64    // logical time MakeHandler returned
+	afterMsg  int32 // messages delivered after the closer ran
+	// deliveredAtCloser: messages delivered (read or still queued) when the
+	// close callback finished; -1 before
+	deliveredAtCloser int
+	mu                sync.Mutex
+	done              chan struct{}
+	expected          []uint32 // model: ids of the messages it must receive
+	live              bool     // model
+	tracked           bool     // model: registered before shutdown
+	regDone           int64    // logical time MakeHandler returned
 }
 
 var clock int64
@@ -152,18 +155,33 @@ func (h *handler) match(action uint32) (bool, bool) {
 }
 
 func newHandler(op Op) *handler {
-	h := &handler{filter: op.Filter, action: op.Action, hasCloser: op.Closer, queue: make(chan *qnet.Message, 512), done: make(chan struct{})}
+	h := &handler{filter: op.Filter, action: op.Action, hasCloser: op.Closer, queue: make(chan *qnet.Message, 512), done: make(chan struct{}), deliveredAtCloser: -1}
+	// The reader takes a message off the queue and records it under h.mu in one
+	// step (a non-blocking receive, polled), so that the close callback can
+	// count exactly what had been delivered when it ran: what the reader has
+	// recorded plus what still waits in the queue. A message beyond that count
+	// was delivered after the callback; one merely read later was not.
 	go func() {
-		for m := range h.queue {
+		for {
 			h.mu.Lock()
-			h.received = append(h.received, m.Header.ID)
-			if atomic.LoadInt32(&h.closerN) > 0 {
-				atomic.AddInt32(&h.afterMsg, 1)
+			select {
+			case m, ok := <-h.queue:
+				if !ok {
+					h.mu.Unlock()
+					atomic.StoreInt64(&h.closedAt, tick())
+					close(h.done)
+					return
+				}
+				h.received = append(h.received, m.Header.ID)
+				if h.deliveredAtCloser >= 0 && len(h.received) > h.deliveredAtCloser {
+					atomic.AddInt32(&h.afterMsg, 1)
+				}
+				h.mu.Unlock()
+			default:
+				h.mu.Unlock()
+				time.Sleep(20 * time.Microsecond)
 			}
-			h.mu.Unlock()
 		}
-		atomic.StoreInt64(&h.closedAt, tick())
-		close(h.done)
 	}()
 	return h
 }
@@ -177,6 +195,11 @@ func (h *handler) closer() qnet.Closer {
 		// goroutine gets the time to notice it first
 		time.Sleep(300 * time.Microsecond)
 		atomic.StoreInt64(&h.closerAt, tick())
+		h.mu.Lock()
+		if h.deliveredAtCloser < 0 {
+			h.deliveredAtCloser = len(h.received) + len(h.queue)
+		}
+		h.mu.Unlock()
 		atomic.AddInt32(&h.closerN, 1)
 	}
 }
